@@ -6,6 +6,7 @@ package caps
 import (
 	"encoding/hex"
 	"fmt"
+	"math/bits"
 	"strconv"
 	"strings"
 
@@ -19,11 +20,23 @@ import (
 // histories shrink and replay from the .fail file.
 type rapidChooser struct{ t *rapid.T }
 
+// Intn is built from fair coin flips: rapid's integer generators are biased
+// towards small values (about half of the draws of a 7-bit range fall below 32),
+// which would starve the later alternatives of every weighted choice. Bits still
+// shrink towards 0.
 func (r rapidChooser) Intn(label string, n int) int {
 	if n <= 1 {
 		return 0
 	}
-	return rapid.IntRange(0, n-1).Draw(r.t, label)
+	k := bits.Len(uint(n-1)) + 3
+	v := 0
+	for _, b := range rapid.SliceOfN(rapid.Bool(), k, k).Draw(r.t, label) {
+		v <<= 1
+		if b {
+			v |= 1
+		}
+	}
+	return v % n
 }
 
 // stringsOf converts a [String] result to Go strings.
@@ -110,4 +123,17 @@ func byteArrayHex(v cadence.Value) string {
 		b[i] = byte(u)
 	}
 	return hex.EncodeToString(b)
+}
+
+// errMatches tests a failure against the model's token: "" matches anything,
+// "type:X" needs a Go error type containing X in the error tree, anything else
+// is a substring of the message.
+func errMatches(r host.Result, token string) bool {
+	if token == "" {
+		return true
+	}
+	if t, ok := strings.CutPrefix(token, "type:"); ok {
+		return host.Classify(r).HasType(t)
+	}
+	return r.Err != nil && strings.Contains(r.Err.Error(), token)
 }
